@@ -3,6 +3,7 @@ package main
 import (
 	"bufio"
 	"bytes"
+	"encoding/pem"
 	"errors"
 	"fmt"
 	"hop.computer/hop/core"
@@ -891,6 +892,30 @@ func runOp(f []string) string {
 			return "bad-op"
 		}
 		return allocClass(a[0], func() string { return decode(a[0], b) })
+	}
+	if op == "certs-dec" {
+		if len(a) != 1 {
+			return "bad-op"
+		}
+		var file bytes.Buffer
+		for _, h := range strings.Split(a[0], ",") {
+			b, ok := Unhex(h)
+			if !ok {
+				return "bad-op"
+			}
+			pem.Encode(&file, &pem.Block{Type: certs.PEMTypeHopCertificate, Bytes: b})
+		}
+		return Guard(func() string {
+			cs, err := certs.ReadManyCertificatesPEM(&file)
+			if err != nil {
+				return "err"
+			}
+			var out []string
+			for i := range cs {
+				out = append(out, fromCert(&cs[i]).String())
+			}
+			return strings.Join(out, ";")
+		})
 	}
 	if strings.HasSuffix(op, "-dec") {
 		if len(a) != 1 {
